@@ -154,8 +154,11 @@ Lemma raw_ok_ne c d :
   raw_ok c = true -> In d [124; 41; 40; 91; 46; 92; 42; 43; 63; 94; 36; 123; 125] -> c <> d.
 Proof. unfold raw_ok. rewrite negb_true_iff. intros H. exact (one_of_false c _ H d). Qed.
 
-Lemma class_raw_ok_ne c d : class_raw_ok c = true -> In d [93; 92; 91; 94; 45] -> c <> d.
+Lemma class_raw_ok_ne c d : class_raw_ok c = true -> In d [93; 92; 91] -> c <> d.
 Proof. unfold class_raw_ok. rewrite negb_true_iff. intros H. exact (one_of_false c _ H d). Qed.
+
+Lemma class_hi_ok_ne c d : class_hi_ok c = true -> In d [93; 92] -> c <> d.
+Proof. unfold class_hi_ok. rewrite negb_true_iff. intros H. exact (one_of_false c _ H d). Qed.
 
 Lemma eqb_ne c d : c <> d -> N.eqb c d = false.
 Proof. intros H. apply N.eqb_neq. exact H. Qed.
@@ -215,48 +218,78 @@ Qed.
 (* ---------------------------------------------------------------------- *)
 (* bracket classes *)
 
-Lemma class_next items rest :
-  forallb valid_item items = true -> exists d t, flat_map item_text items ++ 93 :: rest = d :: t /\ d <> 45.
+Lemma item_head i :
+  exists d t, item_text i = d :: t /\ (raw_start i = Some d \/ (raw_start i = None /\ d = 92)).
 Proof.
-  destruct items as [|i items]; [intros _; exists 93, rest; split; [reflexivity|discriminate]|].
-  cbn [forallb flat_map]. intros H. apply andb_true_iff in H as [Hi _].
-  destruct i as [c [|]|lo hi]; cbn [item_text char_text valid_item] in *.
-  - eexists 92, _. split; [reflexivity|discriminate].
-  - eexists c, _. split; [reflexivity|]. apply (class_raw_ok_ne c 45 Hi). cbn; tauto.
-  - apply andb_true_iff in Hi as [Hi _]. apply andb_true_iff in Hi as [Hlo _].
-    eexists lo, _. split; [reflexivity|]. apply (class_raw_ok_ne lo 45 Hlo). cbn; tauto.
+  destruct i as [c [|]|lo [|] hi]; cbn [item_text char_text raw_start app]; eexists _, _; (split; [reflexivity|]); auto.
 Qed.
 
-Lemma parse_class_items items : forall fuel acc rest,
-  forallb valid_item items = true -> (length (flat_map item_text items) < fuel)%nat ->
+(* after a single character: a "-" comes next only as the last character of the class *)
+Lemma class_next items rest :
+  valid_items true items = true ->
+  exists d t, flat_map item_text items ++ 93 :: rest = d :: t /\ (d = 45 -> exists t', t = 93 :: t').
+Proof.
+  destruct items as [|i items]; [intros _; exists 93, rest; split; [reflexivity|discriminate]|].
+  cbn [valid_items flat_map]. intros H. apply andb_true_iff in H as [H _]. apply andb_true_iff in H as [_ Hc].
+  rewrite andb_true_r in Hc. unfold starts_with in Hc.
+  destruct i as [c [|]|lo [|] hi]; cbn [item_text char_text raw_start app] in *.
+  - eexists 92, _. split; [reflexivity|discriminate].
+  - eexists c, _. split; [reflexivity|]. intros ->. change (N.eqb 45 45) with true in Hc. cbv iota in Hc.
+    destruct items; [|discriminate Hc]. eexists. reflexivity.
+  - eexists 92, _. split; [reflexivity|discriminate].
+  - eexists lo, _. split; [reflexivity|]. intros ->. change (N.eqb 45 45) with true in Hc. discriminate Hc.
+Qed.
+
+(* the look-ahead of parse_class after a single character does not see a range *)
+Lemma no_range_ahead (A : Type) items rest (x : N -> ustr -> A) (y : A) :
+  valid_items true items = true ->
+  match flat_map item_text items ++ 93 :: rest with
+  | d :: e :: s'' => if N.eqb d 45 && negb (N.eqb e 93) then x e s'' else y
+  | _ => y
+  end = y.
+Proof.
+  intros Hv. destruct (class_next items rest Hv) as (d & t & -> & Hd).
+  destruct t as [|e s'']; [reflexivity|]. destruct (N.eqb_spec d 45) as [E|E]; [|reflexivity].
+  destruct (Hd E) as [t' Et]. injection Et as -> _. reflexivity.
+Qed.
+
+Lemma parse_class_items items : forall p fuel acc rest,
+  valid_items p items = true -> (length (flat_map item_text items) < fuel)%nat ->
   (items <> [] \/ acc <> []) ->
   parse_class fuel (flat_map item_text items ++ 93 :: rest) acc = POk (rev (map item_range items) ++ acc) rest.
 Proof.
-  induction items as [|i items IH]; intros fuel acc rest Hv Hf Hne.
+  induction items as [|i items IH]; intros p fuel acc rest Hv Hf Hne.
   - destruct fuel as [|f]; [cbn in Hf; lia|]. cbn [flat_map app parse_class]. change (N.eqb 93 93) with true. cbv iota.
     destruct acc; [destruct Hne as [H|H]; contradiction H; reflexivity|reflexivity].
-  - cbn [forallb] in Hv. apply andb_true_iff in Hv as [Hi Hv]. cbn [flat_map map rev] in *.
-    rewrite app_length in Hf. rewrite <- !app_assoc. cbn [app].
-    destruct (class_next items rest Hv) as (d & t & Enext & Hd).
+  - cbn [valid_items] in Hv. apply andb_true_iff in Hv as [Hv Hr]. apply andb_true_iff in Hv as [Hi _].
+    cbn [flat_map map rev] in *. rewrite app_length in Hf. rewrite <- !app_assoc. cbn [app].
     assert (Hgoal : forall f', (length (flat_map item_text items) < f')%nat ->
               parse_class f' (flat_map item_text items ++ 93 :: rest) (item_range i :: acc) =
               POk (rev (map item_range items) ++ [item_range i] ++ acc) rest).
-    { intros f' Hf'. apply IH; [exact Hv|exact Hf'|right; discriminate]. }
-    destruct i as [c [|]|lo hi]; cbn [item_text char_text valid_item item_range length] in *.
+    { intros f' Hf'. apply (IH (is_single i)); [exact Hr|exact Hf'|right; discriminate]. }
+    destruct i as [c [|]|lo [|] hi]; cbn [item_text char_text valid_item item_range length is_single app] in *.
     + (* \c *)
       destruct fuel as [|f]; [lia|]. cbn [app parse_class].
       change (N.eqb 92 93) with false. change (N.eqb 92 92) with true. cbv iota.
       unfold esc_ok in Hi. apply negb_true_iff in Hi. rewrite Hi.
-      apply (Hgoal f). lia.
+      rewrite (no_range_ahead _ items rest _ _ Hr). apply (Hgoal f). lia.
     + (* c *)
       pose proof (class_raw_ok_ne c) as Hn.
       destruct fuel as [|f]; [lia|]. cbn [app]. cbn [parse_class].
       rewrite (eqb_ne c 93), (eqb_ne c 92), (eqb_ne c 91) by (apply Hn; [exact Hi|cbn; tauto]).
-      rewrite Enext. rewrite (eqb_ne d 45 Hd). cbn [andb].
-      destruct t; rewrite <- Enext; apply (Hgoal f); lia.
+      rewrite (no_range_ahead _ items rest _ _ Hr). apply (Hgoal f). lia.
+    + (* \lo-hi *)
+      apply andb_true_iff in Hi as [Hi Hle]. apply andb_true_iff in Hi as [Hlo Hhi].
+      pose proof (class_hi_ok_ne hi) as Hm.
+      destruct fuel as [|f]; [lia|]. cbn [app parse_class].
+      change (N.eqb 92 93) with false. change (N.eqb 92 92) with true. cbv iota.
+      unfold esc_ok in Hlo. apply negb_true_iff in Hlo. rewrite Hlo.
+      change (N.eqb 45 45) with true. rewrite (eqb_ne hi 93), (eqb_ne hi 92) by (apply Hm; [exact Hhi|cbn; tauto]).
+      cbn [andb negb]. apply N.leb_le in Hle. rewrite (proj2 (N.ltb_ge hi lo) Hle).
+      apply (Hgoal f). lia.
     + (* lo-hi *)
       apply andb_true_iff in Hi as [Hi Hle]. apply andb_true_iff in Hi as [Hlo Hhi].
-      pose proof (class_raw_ok_ne lo) as Hn. pose proof (class_raw_ok_ne hi) as Hm.
+      pose proof (class_raw_ok_ne lo) as Hn. pose proof (class_hi_ok_ne hi) as Hm.
       destruct fuel as [|f]; [lia|]. cbn [app]. cbn [parse_class].
       rewrite (eqb_ne lo 93), (eqb_ne lo 92), (eqb_ne lo 91) by (apply Hn; [exact Hlo|cbn; tauto]).
       change (N.eqb 45 45) with true. rewrite (eqb_ne hi 93), (eqb_ne hi 92) by (apply Hm; [exact Hhi|cbn; tauto]).
@@ -381,25 +414,22 @@ Section ParseText.
       + exists c, []. split; [reflexivity|]. apply patom_raw. exact Hv.
     - (* ADot *) intros _ f rest _. exists 46, []. split; reflexivity.
     - (* AClass *) intros neg items Hv f rest _. cbn [valid_atom atom_text built_atom] in *.
-      assert (Hne : items <> []) by (intros ->; discriminate Hv).
-      assert (Hv' : forallb valid_item items = true) by (destruct items; [discriminate Hv|exact Hv]).
+      unfold valid_class in Hv. destruct items as [|i0 items0] eqn:Eitems; [discriminate Hv|]. rewrite <- Eitems in *.
+      apply andb_true_iff in Hv as [Hcaret Hv'].
+      assert (Hne : items <> []) by (rewrite Eitems; discriminate).
       eexists 91, _. split; [reflexivity|].
       rewrite <- !app_assoc. cbn [app]. destruct neg; cbn [app].
       + unfold patom. change (N.eqb 91 40) with false. change (N.eqb 91 91) with true. cbv iota.
-        rewrite parse_class_items; [rewrite app_nil_r; reflexivity|exact Hv'| |left; exact Hne].
+        rewrite (parse_class_items items false); [rewrite app_nil_r; reflexivity|exact Hv'| |left; exact Hne].
         rewrite app_length. cbn [length]. lia.
-      + destruct (class_next items rest Hv') as (d & t & Enext & _).
-        assert (Hd94 : d <> 94).
-        { destruct items as [|i items']; [contradiction Hne; reflexivity|]. cbn [forallb flat_map] in *.
-          apply andb_true_iff in Hv' as [Hi _].
-          destruct i as [c [|]|lo hi]; cbn [item_text char_text valid_item app] in *; injection Enext as <- _.
-          - discriminate.
-          - apply (class_raw_ok_ne c 94 Hi). cbn; tauto.
-          - apply andb_true_iff in Hi as [Hi _]. apply andb_true_iff in Hi as [Hlo _].
-            apply (class_raw_ok_ne lo 94 Hlo). cbn; tauto. }
-        rewrite patom_class_pos by (intros t' E; rewrite Enext in E; injection E as E _; exact (Hd94 E)).
-        rewrite parse_class_items; [rewrite app_nil_r; reflexivity|exact Hv'| |left; exact Hne].
-        rewrite app_length. cbn [length]. lia.
+      + cbn [orb] in Hcaret. apply negb_true_iff in Hcaret.
+        rewrite patom_class_pos.
+        * rewrite (parse_class_items items false); [rewrite app_nil_r; reflexivity|exact Hv'| |left; exact Hne].
+          rewrite app_length. cbn [length]. lia.
+        * intros t' E. rewrite Eitems in E. cbn [flat_map] in E.
+          destruct (item_head i0) as (d & t & Et & Hd). rewrite Et in E. rewrite <- !app_assoc in E. cbn [app] in E.
+          injection E as -> _. unfold starts_with in Hcaret.
+          destruct Hd as [Hd|[_ Hd]]; [rewrite Hd in Hcaret; discriminate Hcaret|discriminate Hd].
     - (* AGroup *) intros cap b IH Hv f rest Hf. cbn [valid_atom atom_text built_atom] in *.
       eexists 40, _. split; [reflexivity|].
       rewrite <- !app_assoc. cbn [app].
@@ -494,7 +524,7 @@ Proof.
 Qed.
 
 Theorem regex_fullmatch_text icase dotall x s :
-  valid_alt x = true -> negb (is_ascii (regex_text x)) && icase = false ->
+  valid_alt x = true -> icase && (negb (is_ascii (regex_text x)) || negb (is_ascii s)) = false ->
   (regex_fullmatch (regex_text x) icase dotall s = Some (Some true) <-> matches icase (alt_re dotall x) s) /\
   (regex_fullmatch (regex_text x) icase dotall s = Some (Some false) <-> ~ matches icase (alt_re dotall x) s).
 Proof.
@@ -522,7 +552,7 @@ Qed.
 Definition example_rx : ralt :=
   AltCons
     (SCons (AChar 97 false) Q1
-      (SCons (AClass false [CRange 98 100; CChar 45 true]) QStar SNil))
+      (SCons (AClass false [CRange 98 false 100; CChar 45 true]) QStar SNil))
     (Alt1 (SCons (AGroup false (Alt1 (SCons ADot Q1 (SCons (AChar 120 false) Q1 SNil)))) QPlus SNil)).
 
 Example example_rx_text :
@@ -534,11 +564,25 @@ Example example_rx_search s :
   matches_somewhere false (alt_re false example_rx) s.
 Proof. apply regex_search_text. reflexivity. Qed.
 
-(* Outside the class of spec/RegexText.v, and a disagreement with Python's re: in a bracket class an
-   ESCAPED character followed by "-" is not read as the start of a range.  "[\.-z]" is the range
-   "." to "z" for Python (it matches "a", not "-"); parse_class reads the three characters . - z. *)
+(* a class with the delicate spellings:   [-\.-z^a-]   is  "-", the range "." to "z", "^", "a", "-"  *)
+Definition example_class : ralt :=
+  Alt1 (SCons (AClass false [CChar 45 false; CRange 46 true 122; CChar 94 false; CChar 97 false; CChar 45 false])
+              Q1 SNil).
+
+Example example_class_text :
+  regex_text example_class = [91; 45; 92; 46; 45; 122; 94; 97; 45; 93] /\ valid_alt example_class = true.
+Proof. split; reflexivity. Qed.
+
+(* In a bracket class an escaped character followed by "-" begins a range, as for Python's re:
+   "[\.-z]" is the range "." to "z" (it matches "a", not "-").  (Before the repair of parse_class the
+   three characters . - z were read.) *)
 Example class_escape_then_dash :
-  parse_regex false [91; 92; 46; 45; 122; 93] = POk (RSeq REps (RSet false [(122, 122); (45, 45); (46, 46)])) [] /\
-  regex_fullmatch [91; 92; 46; 45; 122; 93] false false [97] = Some (Some false) /\
-  regex_fullmatch [91; 92; 46; 45; 122; 93] false false [45] = Some (Some true).
+  parse_regex false [91; 92; 46; 45; 122; 93] = POk (RSeq REps (RSet false [(46, 122)])) [] /\
+  regex_fullmatch [91; 92; 46; 45; 122; 93] false false [97] = Some (Some true) /\
+  regex_fullmatch [91; 92; 46; 45; 122; 93] false false [45] = Some (Some false).
 Proof. repeat split; vm_compute; reflexivity. Qed.
+
+(* Under IGNORECASE the model answers for ASCII text only: Python folds the Kelvin sign onto "k" *)
+Example icase_non_ascii_subject :
+  regex_fullmatch [107] true false [8490] = None /\ regex_fullmatch [107] true false [75] = Some (Some true).
+Proof. split; vm_compute; reflexivity. Qed.
